@@ -10,6 +10,7 @@ import (
 	"os"
 	"runtime/pprof"
 	"sort"
+	"strings"
 	"sync/atomic"
 	"time"
 
@@ -116,6 +117,16 @@ func (c *checker) replay(k kase) {
 	}
 }
 
+// fixedWidth: leaves whose alternatives change payload bytes only, never the
+// structure of the binary encoding.
+func fixedWidth(kind string) bool {
+	switch kind {
+	case "int64", "uint64", "int32", "uint32", "int16", "uint16", "int8", "uint8", "bool", "bytearray", "time":
+		return true
+	}
+	return false
+}
+
 func structural(kind string) bool {
 	switch kind {
 	case "iface", "ptr", "slice-len", "time":
@@ -207,42 +218,6 @@ func main() {
 	shortEvals := atomic.LoadInt64(&c.evals) - before
 	lap("short-strings")
 
-	// ---------------------------------------------------------- phase 2b: truncations / substitutions of grid encodings
-	before = atomic.LoadInt64(&c.evals)
-	var mutBin, mutJSON, mutSkipped int64
-	const mutCap = 2048 // encodings longer than this (several 1025-byte payloads) are not mutated byte by byte
-	core.Par(len(vals), func(i int) {
-		g := vals[i]
-		f := c.famByNm[g.Root.Family]
-		local := map[string]int{}
-		isBase := g.Desc.Path == ""
-		if !g.JSONOnly && (isBase || thorough) {
-			if enc, o := encBin(g.iface()); !o.Panicked {
-				if len(enc) <= mutCap {
-					c.mutateBinary(f, enc, local)
-					atomic.AddInt64(&mutBin, 1)
-				} else {
-					atomic.AddInt64(&mutSkipped, 1)
-				}
-			}
-		}
-		if isBase || (thorough && structural(g.Kind[g.Desc.Path])) {
-			if enc, o := encJSON(g.iface()); !o.Panicked {
-				if len(enc) <= 2*mutCap {
-					c.mutateJSON(f, enc, local)
-					atomic.AddInt64(&mutJSON, 1)
-				} else {
-					atomic.AddInt64(&mutSkipped, 1)
-				}
-			}
-		}
-		for k, n := range local {
-			c.classes.AddN("mutated/"+k, n)
-		}
-	})
-	mutEvals := atomic.LoadInt64(&c.evals) - before
-	lap("mutations")
-
 	// ---------------------------------------------------------- phase 2c: length bombs and allocation, single-threaded
 	before = atomic.LoadInt64(&c.evals)
 	var mem []memCase
@@ -283,9 +258,74 @@ func main() {
 			}
 		}
 	}
-	c.measure(mem)
+	// order: the 2^62 bombs (can only panic), then the 2^31 bombs (2 GiB if
+	// the limit is ignored), and only if the decoder honoured its limit on
+	// all of them the byte-level mutations
+	var m62, m31, mOther []memCase
+	for _, mc := range mem {
+		switch {
+		case strings.HasPrefix(mc.mut, "bomb-2p62"):
+			m62 = append(m62, mc)
+		case strings.HasPrefix(mc.mut, "bomb-2p31"):
+			m31 = append(m31, mc)
+		default:
+			mOther = append(mOther, mc)
+		}
+	}
+	c.measure(m62)
+	c.measure(m31)
+	if atomic.LoadInt64(&c.memViolations) == 0 && atomic.LoadInt64(&c.makeslicePanics) == 0 {
+		c.measure(mOther)
+	} else {
+		c.notes.Add("serial-byte-mutations-skipped:decoder-ignores-its-limit")
+	}
 	memEvals := atomic.LoadInt64(&c.evals) - before
 	lap("bombs+memory(serial)")
+
+	// ---------------------------------------------------------- phase 2b: truncations / substitutions of grid encodings
+	before = atomic.LoadInt64(&c.evals)
+	var mutBin, mutJSON, mutSkipped int64
+	// The bomb phase places a 2^62 and a 2^31 length at every length-prefix
+	// position, which detects a decoder that does not honour its limit without
+	// risk (2^62 can only panic, 2^31 allocates 2 GiB).  If it did detect one,
+	// byte-level mutations are not offered to the binary decoder: an arbitrary
+	// length of 2^33..2^48 would make the Go runtime abort this process.
+	unsafeDecoder := atomic.LoadInt64(&c.memViolations) > 0 || atomic.LoadInt64(&c.makeslicePanics) > 0
+	if unsafeDecoder {
+		c.notes.Add("binary-byte-mutations-skipped:decoder-ignores-its-limit")
+	}
+	const mutCap = 2048 // encodings longer than this (several 1025-byte payloads) are not mutated byte by byte
+	core.Par(len(vals), func(i int) {
+		g := vals[i]
+		f := c.famByNm[g.Root.Family]
+		local := map[string]int{}
+		isBase := g.Desc.Path == ""
+		if !g.JSONOnly && (isBase || (thorough && !fixedWidth(g.Kind[g.Desc.Path]))) && !unsafeDecoder {
+			if enc, o := encBin(g.iface()); !o.Panicked {
+				if len(enc) <= mutCap {
+					c.mutateBinary(f, enc, isBase, local)
+					atomic.AddInt64(&mutBin, 1)
+				} else {
+					atomic.AddInt64(&mutSkipped, 1)
+				}
+			}
+		}
+		if isBase || (thorough && structural(g.Kind[g.Desc.Path])) {
+			if enc, o := encJSON(g.iface()); !o.Panicked {
+				if len(enc) <= 2*mutCap {
+					c.mutateJSON(f, enc, local)
+					atomic.AddInt64(&mutJSON, 1)
+				} else {
+					atomic.AddInt64(&mutSkipped, 1)
+				}
+			}
+		}
+		for k, n := range local {
+			c.classes.AddN("mutated/"+k, n)
+		}
+	})
+	mutEvals := atomic.LoadInt64(&c.evals) - before
+	lap("mutations")
 
 	// ---------------------------------------------------------- phase 3: sign-bytes
 	sbValues, sbPairs, sbDistinct := c.signBytes(thorough)
@@ -355,7 +395,7 @@ func main() {
 			"(3) all ordered pairs over the vote grid and the proposal grid and across them (chain ids incl. JSON-breaking ones, heights {0,1,2^63-1}, rounds {0,1}, types {prevote,precommit}, block ids {nil, A, A' differing in hash / parts total / parts hash}, POL rounds {-1,0,1}, block parts headers): equal sign-bytes imply equal chain id, height, round, type, block id (and POL round / parts header). " +
 			"RLP: every byte string of length <= 2 (quick) / <= 3 (thorough) decoded by in-tree eth/rlp and upstream go-ethereum v1.8.27 rlp into RawValue, uint64, []byte, [][]byte, two structs (plain; rlp:\"nil\"+rlp:\"tail\"), *big.Int, [3]byte, interface{}, string, bool, plus raw.Split/SplitList/SplitString/CountValues: same accept/reject, same value, same re-encoding; value grid (same construction, RLP domain: unsigned ints, non-nil non-negative big.Int, byte lengths {0,1(<0x80),1(>=0x80),2,55,56,57,255,256,1025}) of chain/types.KV, eth Header, the transaction field list and the consensus receipt field list: round trip, determinism, byte-equal with upstream, the real types.Transaction / types.Receipt / NewTransaction agree with the field lists; every truncation and substitution {00,01,7f,80,ff,±1} of those encodings decoded by both. distinct_nontrivial = number of distinct (phase, target, entry point, outcome / leaf kind + shape) classes observed",
 		"samples":                   c.samples.List(),
-		"exhaustive":                true,
+		"exhaustive":                !unsafeDecoder,
 		"tier_bounds":               map[string]interface{}{"rlp_max_len": maxLen, "mutated_values": map[string]int64{"binary": mutBin, "json": mutJSON, "skipped_longer_than_cap": mutSkipped}, "mutation_length_cap": mutCap, "thorough": thorough},
 		"families":                  famNames,
 		"wire_roots":                nRoots,
